@@ -538,6 +538,16 @@ impl Driver {
                 for f in ["rep", "verbose", "escape", "capture", "word"] {
                     runs.push(run(ic.with(f, true), &tcs));
                 }
+                // (?i) together with the class options, the negated ones above all: what the lower-casing step leaves
+                // alone (a test case with U+0130 keeps its casing) must not be touched after the conversion either
+                let neg = ["nondigit", "nonword", "nonspace", "digit", "space"];
+                let k0 = rng.gen_range(0..neg.len());
+                runs.push(run(ic.with(neg[k0], true), &tcs));
+                runs.push(run(ic.with(neg[(k0 + 1 + rng.gen_range(0..4)) % neg.len()], true).with("rep", rng.gen_bool(0.5)), &tcs));
+                {
+                    let c = class_cfg(rng.gen_range(1..64u32));
+                    runs.push(run(c.with("icase", true), &tcs));
+                }
                 runs.push(run(ic.with("nostart", true).with("noend", true), &tcs));
                 // the same text first without, then with (?i): nothing remembered from the first may leak
                 runs.push(run(base.with("rep", true).with("noend", true), &tcs));
@@ -574,6 +584,17 @@ impl Driver {
                     let b = ((i as u32).wrapping_mul(2654435761) >> 7) % 63 + 1;
                     runs.push(run(class_cfg(b), &tcs));
                     runs.push(run(class_cfg(63), &tcs));
+                }
+                // the converted (or unconverted) character inside the free-spacing layout: one flag rotating with the
+                // code point, every flag for the characters that the layout could swallow (White_Space, '#')
+                let swallowed = !in_cluster && (c.is_whitespace() || c == '#');
+                if swallowed {
+                    for bit in 0..6 {
+                        runs.push(run(class_cfg(1 << bit).with("verbose", true), &tcs));
+                    }
+                    runs.push(run(class_cfg(0b000101).with("verbose", true), &tcs));
+                } else {
+                    runs.push(run(class_cfg(1 << (i % 6)).with("verbose", true), &tcs));
                 }
                 mk(tcs, runs)
             }
@@ -836,6 +857,19 @@ impl Driver {
                     tcs.sort();
                     tcs.dedup();
                     ctx = if rng.gen_bool(0.5) { base.with("rep", true) } else { base.with("rep", true).with(["capture", "verbose", "icase"][rng.gen_range(0..3)], true) };
+                }
+                if rng.gen_bool(0.12) {
+                    // non-ASCII white space under the free-spacing layout: the unescaped build writes it in the
+                    // four-digit form, the escaped build must still use the one form that C11 names
+                    let sp: Vec<&str> = SPACES.iter().copied().filter(|x| !x.is_ascii()).collect();
+                    let w = format!("{}{}{}", pick(&mut rng, PLAIN), pick(&mut rng, &sp), pick(&mut rng, ASTRAL));
+                    tcs.push(w.clone());
+                    if rng.gen_bool(0.5) {
+                        tcs.push(pick(&mut rng, &sp).repeat(rng.gen_range(1..=3)));
+                    }
+                    tcs.sort();
+                    tcs.dedup();
+                    ctx = base.with("verbose", true).with("rep", rng.gen_bool(0.5));
                 }
                 let e = ctx.with("escape", true);
                 mk(tcs.clone(), vec![run(ctx.clone(), &tcs), run(e.clone(), &tcs), run(e.with("surr", true), &tcs)])
